@@ -7,8 +7,9 @@ REPO = os.environ.get('VF_REPO', '/repo')
 SRC = os.path.join(REPO, 'src')
 LIB = os.path.join(VERIF, 'lib')
 CONTRACTS = os.path.join(VERIF, 'contracts')
-EVIDENCE = os.path.join(VERIF, 'evidence')
-REPLAY = os.path.join(VERIF, 'replay')
+# VF_OUT: write evidence/ and replay/ somewhere else (used only when the checks are pointed at a scratch copy of the repository with VF_REPO, e.g. for seeded changes)
+EVIDENCE = os.path.join(os.environ.get('VF_OUT', VERIF), 'evidence')
+REPLAY = os.path.join(os.environ.get('VF_OUT', VERIF), 'replay')
 KNOWN = os.path.join(VERIF, 'KNOWN_FINDINGS.txt')
 NCPU = int(os.environ.get('VF_JOBS', str(os.cpu_count() or 4)))
 MEM_KB = 8 * 1024 * 1024
